@@ -47,3 +47,9 @@ Lemma bbc_connector_shape_ok :
   /\ pkg_cla_bbc__Connector_handleIncomingNewTransmission__ops = [tok_eql]
   /\ pkg_cla_bbc__Connector_handleIncomingKnownTransmission__ops = [tok_neq].
 Proof. repeat split; reflexivity. Qed.
+
+(* NewConnector: the three channel capacities (fragmentOut, failTransmission, reportChan) *)
+Lemma bbc_new_connector_shape_ok :
+  pkg_cla_bbc__NewConnector__lits = [bbc_queue_cap; bbc_queue_cap; bbc_queue_cap]
+  /\ pkg_cla_bbc__NewConnector__ops = [tok_addr].
+Proof. split; reflexivity. Qed.
